@@ -4,6 +4,7 @@ pub mod c03;
 pub mod c04;
 pub mod c05;
 pub mod c06;
+pub mod c06m;
 pub mod c07;
 pub mod c08;
 pub mod c09;
